@@ -214,7 +214,7 @@ var props = map[string]*propDef{
 			"allocation ceiling for this property: the documented 128 MiB frame limits (+ header)",
 		}, baseAssumptions...),
 		Harnesses: []harnessDef{
-			{Name: "compress.VerifC05RoundTrip", Quick: map[string]int{"maxlen": 3, "maxread": 3}, Thorough: map[string]int{"maxlen": 6, "maxread": 5}},
+			{Name: "compress.VerifC05RoundTrip", NoEarlyStop: true, Quick: map[string]int{"maxlen": 3, "maxread": 3}, Thorough: map[string]int{"maxlen": 6, "maxread": 5}},
 			{Name: "compress.VerifC05Header", Cfg: c05cfg, Quick: map[string]int{"tail": 2}, Thorough: map[string]int{"tail": 6}},
 			{Name: "compress.VerifC05Corrupt", Quick: map[string]int{"maxlen": 2}, Thorough: map[string]int{"maxlen": 6}},
 			{Name: "compress.VerifC05Truncated", Quick: map[string]int{"maxlen": 2}, Thorough: map[string]int{"maxlen": 5}},
@@ -326,7 +326,7 @@ var props = map[string]*propDef{
 		Harnesses: []harnessDef{
 			{Name: "chpool.VerifC11Handles", Cfg: allowLeak},
 			{Name: "chpool.VerifC11Expiry", Cfg: allowLeak},
-			{Name: "chpool.VerifC11History", Cfg: allowLeak, Quick: map[string]int{"maxsteps": 4}, Thorough: map[string]int{"maxsteps": 6}},
+			{Name: "chpool.VerifC11History", Cfg: allowLeak, Quick: map[string]int{"maxsteps": 4}, Thorough: map[string]int{"maxsteps": 5}},
 		},
 	},
 }
